@@ -177,6 +177,11 @@ func inlineFilterRefs(r Getter, val Object) (Native, error) {
 	if err != nil {
 		return nil, err
 	}
+	if _, isStream := resolved.(*Stream); isStream {
+		return nil, &MalformedFileError{
+			Err: errors.New("stream object in /Filter or /DecodeParms"),
+		}
+	}
 	arr, ok := resolved.(Array)
 	if !ok {
 		return resolved, nil
@@ -186,6 +191,11 @@ func inlineFilterRefs(r Getter, val Object) (Native, error) {
 		elem, err := Resolve(r, v)
 		if err != nil {
 			return nil, err
+		}
+		if _, isStream := elem.(*Stream); isStream {
+			return nil, &MalformedFileError{
+				Err: errors.New("stream object in /Filter or /DecodeParms"),
+			}
 		}
 		out[i] = elem
 	}
